@@ -44,6 +44,40 @@ def _rule(rng, services, p_empty=0.15, p_all=0.35):
     return rng.sample(services, k)
 
 
+def _liven(rng, nsub, topo, exploits, hosts, firewall, sizes):
+    """Open an attack path (still subject to chance, deny-lists and access
+    levels) so that histories get beyond the first subnet: walk the subnets
+    breadth-first from the internet and, for most of them, make one host
+    vulnerable to a usable exploit whose service the rule on the tree edge
+    lets through."""
+    usable = [n for n, e in exploits.items() if e["prob"] > 0]
+    if not usable:
+        n = rng.choice(list(exploits))
+        exploits[n]["prob"] = 0.7
+        usable = [n]
+    seen = {0}
+    frontier = [0]
+    while frontier:
+        nxt = []
+        for a in frontier:
+            for b in range(1, nsub + 1):
+                if b in seen or topo[a][b] != 1:
+                    continue
+                seen.add(b)
+                nxt.append(b)
+                if rng.random() < 0.15:
+                    continue
+                e = exploits[rng.choice(usable)]
+                h = hosts[(b, rng.randrange(sizes[b - 1]))]
+                if e["service"] not in h["services"]:
+                    h["services"].append(e["service"])
+                if e["os"] is not None:
+                    h["os"] = e["os"]
+                if e["service"] not in firewall[(a, b)]:
+                    firewall[(a, b)].append(e["service"])
+        frontier = nxt
+
+
 def synth(rng, tier="quick", route=None, **force):
     """One random valid Spec.  route: 'yaml' (only YAML-expressible features)
     or 'dict' (also discovery values, custom bounds, process-less privescs).
@@ -133,6 +167,8 @@ def synth(rng, tier="quick", route=None, **force):
                     firewall[(a, b)] = _rule(rng, srvs, 0.5, 0.2)
                 else:
                     firewall[(a, b)] = _rule(rng, srvs)
+    if rng.random() < force.get("live", 0.75):
+        _liven(rng, nsub, topo, exploits, hosts, firewall, sizes)
     bounds = None
     if route == "dict" and rng.random() < 0.3:
         bounds = (N + rng.randint(0, 3), max(sizes) + rng.randint(0, 3))
